@@ -1,43 +1,22 @@
-"""Regenerate /verif/MANIFEST.json from the table below (python3 harness/mkmanifest.py)."""
+"""Regenerate /verif/MANIFEST.json from harness/manifest/Cxx.json (one file per CLAIMED property:
+{"text": level_claimed.text, "note": level_note, "technique": ..., "design": DESIGN.md ref}) and harness/manifest/na.json
+({"Cxx": reason} for properties not claimed).   python3 harness/mkmanifest.py"""
 import json
+import os
 
-BASE_TB = ("Coq 8.16.1 kernel + vm_compute (no native_compute); no axioms declared; hand-written Gallina model tied to /repo by a "
-           "differential correspondence run on every invocation (model evaluated inside Coq, no extraction); Python harness generators/printers; "
-           "CPython/Django/re semantics modelled, not verified. ")
-
-CHECKS = {
-    "C01": dict(
-        text="Theorems (Coq, all programs/states/fuel, both modes) about the reference renderer Core/Sem.v: an unfilled slot renders its own default content "
-             "in its own instance (required => TemplateSyntaxError, and only then); a filled slot renders exactly the fill stored under its fill name in the "
-             "CURRENT instance's fills, run in the fill owner's instance; the default alias is the slot's own default content; is_filled is true exactly for "
-             "provided fills; an implicit body is exactly one `default` fill; page and loops are in-order compositions; results are independent of the fuel "
-             "bound. The implementation is tied to that renderer on every run: generated programs (both context behaviours) are rendered through the tag, the "
-             "dynamic component and Component.render and must equal the renderer's output (evaluated inside Coq).",
-        note=BASE_TB + "The reference renderer is a specification-level (lexical closure) model, not a transliteration of the Context-stack mechanism; the "
-             "instance-ownership claim is proved about the renderer and transferred to the code only by output equality on generated programs. Deferred "
-             "rendering is abstracted (C14 covers the queue).",
-        technique="Coq proof about a reference semantics (unfolding characterisations, fuel monotonicity by induction, composition lemmas) + differential correspondence on generated programs",
-        design="§6 C01, §11"),
-    "C18": dict(
-        text="Theorems (Coq, all histories / all capacities, no bounds): size<=cap, distinct keys, cap<=0 stores nothing, error branch unreachable, "
-             "cache answers only what a dictionary would (and the unbounded cache is that dictionary), eviction drops exactly the least-recently-used "
-             "entry (ghost time stamps), cached_template returns a template compiled from the requested key for every history and is identity-stable "
-             "while cached. Tied to the code by exhaustive (<=4/5 ops) + random differential runs of LRUCache and cached_template against the model.",
-        note=BASE_TB + "The model keeps the entry list the linked list + dict represent; Template compilation is an opaque deterministic function of the key.",
-        technique="Coq proof (induction over operation histories, refinement to a dictionary, ghost time stamps) + differential correspondence",
-        design="§6 C18"),
-}
-
-NOT_APPLICABLE = {}
+D = "/verif/harness/manifest"
 
 
 def main():
     props = [json.loads(l)["id"] for l in open("/verif/properties.jsonl")]
-    checks = []
+    na_reasons = json.load(open(os.path.join(D, "na.json"))) if os.path.exists(os.path.join(D, "na.json")) else {}
+    checks, claimed = [], []
     for pid in props:
-        if pid not in CHECKS:
+        p = os.path.join(D, pid + ".json")
+        if not os.path.exists(p) or pid in na_reasons:
             continue
-        c = CHECKS[pid]
+        c = json.load(open(p))
+        claimed.append(pid)
         checks.append({
             "property_id": pid,
             "quick_cmd": "./check %s --tier quick" % pid,
@@ -49,22 +28,22 @@ def main():
             "level_note": c["note"],
             "technique": c["technique"],
         })
-    na = [{"property_id": p, "reason": NOT_APPLICABLE.get(p, "check not built yet in this round (planned, see DESIGN.md §9); not claimed until its check exists")}
-          for p in props if p not in CHECKS]
+    na = [{"property_id": p, "reason": na_reasons.get(p, "check not built yet (planned, see DESIGN.md section 9); not claimed until its check exists")}
+          for p in props if p not in claimed]
     m = {
         "version": 1,
         "setup_cmd": "./setup.sh",
         "hooks": {"guard": "DJC_VERIF", "enable": "no source hooks: checks import /repo/src directly (PYTHONPATH=/repo/src:/repo) and patch id generation from the harness process",
                   "baseline_off_cmd": "cd /repo && /venv/bin/python -m pytest -ra -q -p no:cacheprovider --timeout=900 --continue-on-collection-errors",
                   "source_commits": [], "add_only": True},
-        "engines": [{"name": "coq+correspondence", "path": "/verif/check", "serves_properties": sorted(CHECKS),
+        "engines": [{"name": "coq+correspondence", "path": "/verif/check", "serves_properties": claimed,
                      "kind_free_text": "Coq 8.16.1 theorems about hand-written Gallina models (coq/), re-checked on every run; models evaluated with vm_compute on generated cases and compared with the implementation (harness/)"}],
         "checks": checks,
         "not_applicable": na,
         "notes": "See DESIGN.md. known_findings.json lists recorded/fixed genuine defects. Evidence is rewritten by every run.",
     }
     json.dump(m, open("/verif/MANIFEST.json", "w"), indent=1)
-    print("checks:", len(checks), "not_applicable:", len(na))
+    print("checks:", len(checks), claimed, "not_applicable:", len(na))
 
 
 main()
